@@ -225,7 +225,7 @@ def split_merge(chk, mod):
                       z3.And(*[p.value[n].val == a['hkl_vec'].val[i] for i, n in enumerate('hkl')]))
     # graph wiring of the vector quantities
     g = kit.load('conversion.graph.tof')
-    t = g._GRAPH_DYNAMICS_BY_ORIGIN
+    t = {origin: g.elastic(origin) for origin in ('tof', 'wavelength')}      # the public factory (the table behind it is an implementation detail)
     for origin in ('tof', 'wavelength'):
         ok = (t[origin][('Qx', 'Qy', 'Qz')] is mod.Q_elements_from_wavelength and t[origin]['Q_vec'] is mod.Q_vec_from_Q_elements
               and t[origin]['hkl_vec'] is mod.hkl_vec_from_Q_vec and t[origin][('h', 'k', 'l')] is mod.hkl_elements_from_hkl_vec
